@@ -3,14 +3,119 @@
 package conndrv
 
 import (
+	"context"
 	"errors"
 	"fmt"
 	"io"
+	"time"
 
 	kafka "github.com/segmentio/kafka-go"
 
+	"verifharness/fakekafka"
+	"verifharness/fakenet"
+	"verifharness/krec"
 	"verifharness/trace"
 )
+
+// Poison is the first step of a "pool" scenario, the one that may leave the process-wide buffer pool in a bad state.
+// Default (nil or mode "close2"): a batch read partly and closed twice.  Otherwise a fetch whose response is such that
+// the header of its FIRST message / record batch cannot be read, closed once, on a connection of its own:
+//
+//	"trunc": the record set is N bytes long (what a broker does at MaxBytes);
+//	"cut":   the connection is lost N bytes into the record set;
+//	"stall": N bytes of the record set arrive, the rest only long after the deadline.
+//
+// Magic is the format of the data of that fetch (0, 1: message sets of topic "old"; 2: record batches of topic "t").
+type Poison struct {
+	Mode  string `json:"mode"`
+	N     int    `json:"n"`
+	Magic int    `json:"magic"`
+}
+
+const oldTopic = "old"
+
+// fetchSetPos is the position, in the response frame, of the first byte of the record set of a single-partition fetch.
+func fetchSetPos(version int16, topicName string) int {
+	switch {
+	case version >= 7:
+		return 66 + len(topicName)
+	case version >= 5:
+		return 60 + len(topicName)
+	case version >= 4:
+		return 52 + len(topicName)
+	case version >= 1:
+		return 40 + len(topicName)
+	}
+	return 36 + len(topicName)
+}
+
+// poisonFetch performs the failed-first-header fetch and closes the broken batch once.
+func poisonFetch(sc *Script, n *fakenet.Net, cl *fakekafka.Cluster) (err error, closed bool) {
+	po := sc.Poison
+	name := topic
+	if po.Magic < 2 {
+		name = oldTopic
+		cl.Lock()
+		t := cl.Topics[oldTopic]
+		cl.Unlock()
+		if t == nil {
+			t = cl.AddTopic(oldTopic, 1)
+			p := t.Partitions[0]
+			p.Leader, p.Replicas, p.ISR = 1, []int{1}, []int{1}
+			var recs []krec.Rec
+			for i := 0; i < 4; i++ {
+				recs = append(recs, krec.Rec{Offset: int64(i), TsMs: tsOf(i), Key: []byte(fmt.Sprintf("k%d", i)), Value: valueOf(int64(i))})
+			}
+			p.AppendBatch(fakekafka.PBatch{Base: 0, Last: 3, Records: recs, Bytes: krec.SetV01(int8(po.Magic), recs), Magic: int8(po.Magic)})
+		}
+	}
+	if po.Mode == "trunc" {
+		cl.Lock()
+		p := cl.Part(name, 0)
+		p.FetchPlan = append([]fakekafka.FetchFault{{TruncAt: po.N}}, p.FetchPlan...)
+		cl.Unlock()
+	} else {
+		armed := true
+		cl.Lock()
+		defer func() { cl.Lock(); cl.Intercept = nil; cl.Unlock() }()
+		cl.Intercept = func(req *fakekafka.Request) *fakekafka.Reply {
+			if req.ApiKey != fakekafka.Fetch || !armed {
+				return nil
+			}
+			armed = false
+			rep := req.Broker.Handle(req)
+			at := fetchSetPos(req.Version, name) + po.N
+			if po.Mode == "cut" {
+				rep.CutAt = at
+			} else {
+				rep.StallAt, rep.StallFor = at, 1500*time.Millisecond
+			}
+			return &rep
+		}
+		cl.Unlock()
+	}
+	nc, derr := n.DialContext(context.Background(), "tcp", "b1:9092")
+	if derr != nil {
+		return derr, true
+	}
+	c := kafka.NewConnWith(nc, kafka.ConnConfig{ClientID: "vh", Topic: name, Partition: 0})
+	defer c.Close()
+	c.SetDeadline(time.Now().Add(2 * time.Second))
+	if _, err := c.ApiVersions(); err != nil { // (version negotiation up front, under a deadline that cannot expire)
+		return err, true
+	}
+	if po.Mode == "stall" {
+		c.SetDeadline(time.Now().Add(60 * time.Millisecond))
+	}
+	c.Seek(0, kafka.SeekAbsolute|kafka.SeekDontCheck)
+	b := c.ReadBatch(1, 1<<20)
+	_, err = b.ReadMessage()
+	cerr := b.Close()
+	if err == nil || errors.Is(err, io.EOF) {
+		err = cerr
+	}
+	return err, nc.(*fakenet.Conn).IsClosed()
+}
 
 // RunPool is the scenario kind "pool": two Conns of one process read compressed batches at the same time after a
 // Batch was closed twice.  Buffers the library recycles between batches (decompression buffers, pages) must never be
@@ -19,10 +124,13 @@ import (
 func RunPool(sc *Script) []trace.Event {
 	rec := trace.New()
 	n, cl := newCluster(sc)
-	_ = cl
 	ops := []interface{}{}
 	for o := 1; o <= 3; o++ {
-		ops = append(ops, map[string]interface{}{"o": o, "g": 1, "kind": "poolread",
+		kind := "poolread"
+		if o == 1 && sc.Poison != nil && sc.Poison.Mode != "" && sc.Poison.Mode != "close2" {
+			kind = "poolpoison"
+		}
+		ops = append(ops, map[string]interface{}{"o": o, "g": 1, "kind": kind,
 			"fault": map[string]interface{}{"err": 0, "cut": -1, "report": false, "stall": 0, "corr": 0, "split": false}})
 	}
 	rec.Emit(trace.Event{"ev": "cfg", "id": sc.ID, "kind": sc.Kind, "versions": map[string]interface{}{}, "ops": ops, "nops": 3})
@@ -46,18 +154,27 @@ func RunPool(sc *Script) []trace.Event {
 	check := func(m kafka.Message, want int64) bool {
 		return m.Offset == want && string(m.Value) == string(valueOf(want)) && string(m.Key) == fmt.Sprintf("k%d", want)
 	}
-	// 1. a batch of conn A read partly and closed twice
-	rec.Emit(trace.Event{"ev": "opbegin", "o": 1, "kind": "poolread"})
-	a.Seek(0, kafka.SeekAbsolute|kafka.SeekDontCheck)
-	b0 := a.ReadBatch(1, 1<<20)
-	m, err := b0.ReadMessage()
-	own := err == nil && check(m, 0)
-	cerr := b0.Close()
-	b0.Close()
-	if err == nil {
-		err = cerr
+	if sc.Poison != nil && sc.Poison.Mode != "" && sc.Poison.Mode != "close2" {
+		// 1. a fetch whose first header cannot be read, on a third connection; the broken batch is closed once
+		rec.Emit(trace.Event{"ev": "opbegin", "o": 1, "kind": "poolpoison"})
+		perr, pclosed := poisonFetch(sc, n, cl)
+		cls, code := errClass(perr)
+		rec.Emit(trace.Event{"ev": "opend", "o": 1, "kind": "poolpoison", "result": cls, "code": code, "own": true, "info": fmt.Sprint(perr),
+			"nrec": 0, "freshResult": "", "freshOwn": false, "freshNrec": 0, "closed": pclosed})
+	} else {
+		// 1. a batch of conn A read partly and closed twice
+		rec.Emit(trace.Event{"ev": "opbegin", "o": 1, "kind": "poolread"})
+		a.Seek(0, kafka.SeekAbsolute|kafka.SeekDontCheck)
+		b0 := a.ReadBatch(1, 1<<20)
+		m, err := b0.ReadMessage()
+		own := err == nil && check(m, 0)
+		cerr := b0.Close()
+		b0.Close()
+		if err == nil {
+			err = cerr
+		}
+		end(1, own, err, 1, na.IsClosed())
 	}
-	end(1, own, err, 1, na.IsClosed())
 	// 2./3. A and B read at the same time: one message each, then the rest of each response
 	a.Seek(0, kafka.SeekAbsolute|kafka.SeekDontCheck)
 	b.Seek(4, kafka.SeekAbsolute|kafka.SeekDontCheck)
